@@ -2,7 +2,7 @@
    Model: C07/Model.v (power-flow connectivity on the ppc rows, result NaN rule, create_nxgraph + unsupplied_buses).
    Spec:  C07/Spec.v  (Supplied = the property text; SuppliedPF / SuppliedT = what the two modules implement). *)
 From Coq Require Import List Bool Arith QArith.
-From PPV Require Import Base.C07Graph C07.Model C07.UnionFind C07.Spec C07.Proofs.
+From PPV Require Import Base.C07Graph C07.Model C07.UnionFind C07.Spec C07.Proofs C07.Aux.
 Import ListNotations.
 Local Open Scope nat_scope.
 
@@ -69,6 +69,62 @@ Example C07_partial_nonvacuous :
   topo_unsupplied w_ok = [4; 2] /\ rep w_ok 6 = rep w_ok 5.
 Proof. exact c07_partial_nonvacuous. Qed.
 Print Assumptions C07_partial_nonvacuous.
+
+(* ------------------------------------------------------------------ the auxiliary ppc rows *)
+(* numbering: row k = k-th bus of net.bus; then one internal row per xward, then one star-point row per trafo3w
+   (build_bus.py:341-353); the rows of _switch_branches / _branches_with_oos_buses follow (all_nodes); net._isolated_buses
+   lists exactly the numbers of the rows the search does not reach *)
+Theorem C07_row_of_bus : forall n rp k r, nth_error (buses n) k = Some r -> nth_error (all_nodes rp n) k = Some (L (NB (b_id r))).
+Proof. exact row_of_bus. Qed.
+Print Assumptions C07_row_of_bus.
+Theorem C07_row_of_xward : forall n rp j, j < length (xwards n) ->
+  nth_error (all_nodes rp n) (length (buses n) + j) = Some (L (NXW j)).
+Proof. exact row_of_xward. Qed.
+Print Assumptions C07_row_of_xward.
+Theorem C07_row_of_trafo3w : forall n rp j, j < length (trafo3ws n) ->
+  nth_error (all_nodes rp n) (length (buses n) + length (xwards n) + j) = Some (L (NT3 j)).
+Proof. exact row_of_trafo3w. Qed.
+Print Assumptions C07_row_of_trafo3w.
+Theorem C07_isolated_rows_exact : forall n rp R k,
+  In k (isolated_rows_with rp R n) <-> exists x, nth_error (all_nodes rp n) k = Some x /\ isolated_in R x = true.
+Proof. exact isolated_rows_spec. Qed.
+Print Assumptions C07_isolated_rows_exact.
+
+(* an auxiliary row never changes the supplied set: the row of a bus is reached iff the bus is SuppliedPF (whatever
+   auxiliary rows exist), and each auxiliary row is reached exactly when its element conducts to a reached bus row —
+   xward internal bus: the xward is an in-service element at a SuppliedPF bus; *)
+Theorem C07_bus_row_isolated_iff : forall n b, isolated n (L (NB (rep n b))) = false <-> SuppliedPF n b.
+Proof. exact bus_row_isolated_iff. Qed.
+Print Assumptions C07_bus_row_isolated_iff.
+Theorem C07_xward_row_isolated_iff : forall n j,
+  isolated n (L (NXW j)) = false <->
+  exists x, In (j, x) (enum (xwards n)) /\ x_is x = true /\ bus_is n (x_bus x) = true /\ SuppliedPF n (x_bus x).
+Proof. exact xward_row_isolated_iff. Qed.
+Print Assumptions C07_xward_row_isolated_iff.
+(* trafo3w star point: the trafo3w is in service and some winding without open switch ends at a SuppliedPF bus that is
+   not out of service; *)
+Theorem C07_trafo3w_row_isolated_iff : forall n j,
+  isolated n (L (NT3 j)) = false <->
+  exists t s, In (j, t) (enum (trafo3ws n)) /\ t_is t = true /\ s < 3 /\
+              t3_open_pf n t s = false /\ bus_oos n (t3_bus t s) = false /\ SuppliedPF n (t3_bus t s).
+Proof. exact trafo3w_row_isolated_iff. Qed.
+Print Assumptions C07_trafo3w_row_isolated_iff.
+(* auxiliary bus at an open line / trafo / trafo3w switch or at the out-of-service end of a line (D o kind j side p):
+   it names the row l at the other end of its branch (o = Some l), and it is reached iff that branch is a status-1 branch
+   of the search graph and l is reached; a branch re-routed at both ends (o = None) is never reached *)
+Theorem C07_switch_row_isolated_iff : forall n o k j s p,
+  isolated n (D o k j s p) = false <->
+  exists l, o = Some l /\ In (D o k j s p, L l) (sym (ppc_edges (rep n) n)) /\ isolated n (L l) = false.
+Proof. exact switch_row_isolated_iff. Qed.
+Print Assumptions C07_switch_row_isolated_iff.
+
+Example C07_aux_rows_nonvacuous :
+  all_nodes (rep w_ok) w_ok = [L (NB 0); L (NB 1); L (NB 2); L (NB 3); L (NB 4); L (NB 5); L (NB 6); L (NT3 0);
+                               D (Some (NB 2)) 0 1 0 0; D (Some (NT3 0)) 2 0 1 2; D (Some (NB 2)) 3 2 1 0] /\
+  map (isolated w_ok) (all_nodes (rep w_ok) w_ok) = [false; false; true; true; true; false; true; false; true; false; true] /\
+  isolated_rows w_ok = [2; 3; 4; 6; 8; 10].
+Proof. exact aux_rows_nonvacuous. Qed.
+Print Assumptions C07_aux_rows_nonvacuous.
 
 (* zero power of dead elements, ext_grid rows: an ext_grid that is not an in-service element reports exactly 0 *)
 Theorem C07_ext_grid_zero : forall egs k e, nth_error egs k = Some e -> snd (fst e) = false ->
